@@ -3,8 +3,14 @@ package checks
 import (
 	"fmt"
 	"os"
+	"runtime"
 	"strings"
+	"sync"
+	"sync/atomic"
 	"testing"
+	"time"
+
+	"github.com/akrylysov/pogreb"
 
 	"verif/harness/core"
 	"verif/harness/dbx"
@@ -238,3 +244,147 @@ func shortName(n string) string {
 }
 
 func TestC12(t *testing.T) { core.Run(t, "C12", "C12", propC12) }
+
+// ---------------------------------------------------------------------------------------------
+// C12 free-running: one writer goroutine, the background compaction worker and Backup run truly
+// concurrently (race build). The writer stamps "issued" before and "acknowledged" after every
+// operation; a backup taken between the stamps lo (acknowledged when Backup was called) and hi
+// (issued when it returned) must equal the reference state after some prefix p, lo <= p <= hi.
+
+func propC12Free(ch core.Chooser, st *core.Stats) error {
+	_, ukeys := drawUniverse(ch)
+	kind := drawEnvKind(ch, []string{"os", "mmap", "mem"})
+	env := NewEnv(kind)
+	defer env.Cleanup()
+	cfg := dbx.Config{SegSize: uint32(core.PickInt(ch, "segsize", []int{1024, 2048, 8192})), MinSeg: 520, Frag: 0.02}
+	opts := cfg.Options(env.FS)
+	bg := ch.Int("bg_compact_ms", 0, 2)
+	opts.BackgroundCompactionInterval = time.Duration(bg) * time.Millisecond
+	var db *pogreb.DB
+	if err := core.Safe(func() error { var e error; db, e = pogreb.Open(env.Dir, opts); return e }); err != nil {
+		return fmt.Errorf("Open failed: %v", err)
+	}
+	defer func() { _ = core.Safe(func() error { return db.Close() }) }()
+	type wop struct {
+		del  bool
+		key  string
+		vlen int
+	}
+	n := ch.Int("writer_ops", 20, core.Scale(80, 300))
+	ops := make([]wop, n)
+	for i := range ops {
+		k := ukeys[ch.Int("key", 0, len(ukeys)-1)]
+		if core.Pct(ch, "hot", 50) {
+			k = ukeys[ch.Int("hotkey", 0, 3)]
+		}
+		ops[i] = wop{del: core.Pct(ch, "isdel", 30), key: k, vlen: core.PickInt(ch, "vlen", []int{0, 5, 60, 300, 490})}
+	}
+	backups := ch.Int("backups", 1, 3)
+	startAfter := make([]int, backups)
+	for i := range startAfter {
+		startAfter[i] = ch.Int("backup_after", 0, n)
+	}
+	ch.Note("fs=%s %s bgcompact=%dms writer ops=%d backups after %v", kind, cfg, bg, n, startAfter)
+	// reference states are a pure function of the operation list
+	states := make([]map[string]string, 0, n+1)
+	model := map[string]string{}
+	states = append(states, dbx.Clone(model))
+	for i, o := range ops {
+		if o.del {
+			delete(model, o.key)
+		} else {
+			model[o.key] = mkValue(i, o.vlen)
+		}
+		states = append(states, dbx.Clone(model))
+	}
+	var issued, acked int64
+	var werr atomic.Value
+	var wg sync.WaitGroup
+	wg.Add(1)
+	go func() {
+		defer wg.Done()
+		for i, o := range ops {
+			atomic.StoreInt64(&issued, int64(i+1))
+			err := core.Safe(func() error {
+				if o.del {
+					return db.Delete([]byte(o.key))
+				}
+				return db.Put([]byte(o.key), []byte(mkValue(i, o.vlen)))
+			})
+			if err != nil {
+				werr.Store(fmt.Sprintf("writer operation %d failed: %v", i, err))
+				return
+			}
+			atomic.StoreInt64(&acked, int64(i+1))
+			if i%8 == 0 {
+				runtime.Gosched()
+			}
+		}
+	}()
+	overlapped, matched := 0, 0
+	for b := 0; b < backups; b++ {
+		for atomic.LoadInt64(&acked) < int64(startAfter[b]) && werr.Load() == nil {
+			time.Sleep(20 * time.Microsecond)
+		}
+		bdir := fmt.Sprintf("%s-bak%d", env.Dir, b)
+		lo := atomic.LoadInt64(&acked)
+		err := core.Safe(func() error { return db.Backup(bdir) })
+		hi := atomic.LoadInt64(&issued)
+		benv := &Env{Kind: env.Kind, FS: env.FS, Dir: bdir}
+		if err != nil {
+			benv.Cleanup()
+			if strings.Contains(err.Error(), "busy") {
+				st.Count("free_backups_busy", 1)
+				continue
+			}
+			wg.Wait()
+			return fmt.Errorf("Backup %d failed: %v", b, err)
+		}
+		bdb, err := dbx.Open(bdir, cfg, env.FS)
+		if err != nil {
+			benv.Cleanup()
+			wg.Wait()
+			return fmt.Errorf("opening backup %d failed: %v", b, err)
+		}
+		got, derr := dbx.Dump(bdb)
+		_ = core.Safe(func() error { return bdb.Close() })
+		benv.Cleanup()
+		if derr != nil {
+			wg.Wait()
+			return fmt.Errorf("reading backup %d: %v", b, derr)
+		}
+		match := int64(-1)
+		for p := lo; p <= hi; p++ {
+			if dbx.Equal(got, states[p]) {
+				match = p
+				break
+			}
+		}
+		if match < 0 {
+			wg.Wait()
+			return fmt.Errorf("backup %d matches no state between the %d writes acknowledged before Backup was called and the %d issued before it returned: versus the state at the call: %s; versus the state at the return: %s",
+				b, lo, hi, dbx.Diff(got, states[lo]), dbx.Diff(got, states[hi]))
+		}
+		matched++
+		if hi > lo {
+			overlapped++
+		}
+	}
+	wg.Wait()
+	if e := werr.Load(); e != nil {
+		return fmt.Errorf("%s", e)
+	}
+	if err := dbx.CheckAll(db, model, nil); err != nil {
+		return fmt.Errorf("source database after the backups: %v", err)
+	}
+	st.Eval(1)
+	st.Count("free_fs_"+kind, 1)
+	st.Count("free_backups_checked", int64(matched))
+	st.Count("free_backups_overlapped_by_writes", int64(overlapped))
+	if overlapped > 0 {
+		st.Nontrivial(core.FingerprintOf(ch))
+	}
+	return nil
+}
+
+func TestC12Free(t *testing.T) { core.Run(t, "C12", "C12free", propC12Free) }
